@@ -32,8 +32,16 @@ def main():
         ids = np.array(m['node_ids'], dtype=np.int64)
         xyz = np.array(m['xyz'], dtype=float)
         eids = np.array(m['elem_ids'], dtype=np.int64)
-        conn = np.array(m['conn'], dtype=np.int64)
         et = m['etype']
+        if m.get('blocks'):
+            d = {}
+            for t, a, b in m['blocks']:
+                if b > a:
+                    d[t] = FEMAttribute(t, np.array(m['elem_ids'][a:b], dtype=np.int64),
+                                        np.array(m['conn'][a:b], dtype=np.int64))
+            return FEMData(nodes=FEMAttribute('NODE', ids, xyz),
+                           elements=FEMElementalAttribute('ELEMENT', d))
+        conn = np.array(m['conn'], dtype=np.int64)
         return FEMData(
             nodes=FEMAttribute('NODE', ids, xyz),
             elements=FEMElementalAttribute('ELEMENT', {et: FEMAttribute(et, eids, conn)}))
@@ -78,6 +86,7 @@ def main():
                     v = fd.calculate_element_volumes()
                     res['shape'] = list(np.asarray(v).shape)
                     res['volumes'] = hx(v)
+                    res['elem_ids'] = [int(x) for x in fd.elements.ids]
                 elif job['kind'] == 'sequence':
                     res['steps'] = []
                     for st in job['steps']:
